@@ -527,8 +527,10 @@ def to_reaction(line, substance_keys, token, Cls, globals_=None, **kwargs):
         raise ValueError("Missing token: %s" % token)
 
     # keys may contain the token (e.g. "CH2=CH2"): prefer the token delimited by spaces
-    _token = " %s " % token if " %s " % token in stoich else token
-    sides = stoich.split(_token)
+    if " %s " % token in " %s " % stoich:  # (a side may be empty)
+        sides = (" %s " % stoich).split(" %s " % token)
+    else:
+        sides = stoich.split(token)
     if len(sides) != 2:
         raise ValueError("Expected exactly one token (%s) in: %s" % (token, stoich))
     reac_prod = [[y.strip() for y in x.split(" + ")] for x in sides]
